@@ -136,6 +136,12 @@ type Service struct {
 	// by the cluster.
 	highWatermark atomic.Uint64
 
+	// inflight is the event the leader loop has read from the FIFO but not yet dealt with.
+	// The FIFO emits each event only once, so a leader loop which is stopped while waiting
+	// to retry a transmission leaves the event here, and the next leader loop sends it
+	// first. Only the leader loop goroutine touches it, and at most one exists at a time.
+	inflight *Event
+
 	// highWatermarkInterval is the interval at which the high watermark is written to the store.
 	// This is used to ensure that the high watermark is written periodically,
 	highWatermarkInterval time.Duration
@@ -506,20 +512,31 @@ func (s *Service) leaderLoop() (chan struct{}, chan struct{}) {
 		}()
 
 		for {
+			// Read the next event from the FIFO, unless a previous leader loop
+			// left one behind. In that case it must be sent first.
+			evCh := s.fifo.C
+			if s.inflight != nil {
+				ch := make(chan *Event, 1)
+				ch <- s.inflight
+				evCh = ch
+			}
+
 			select {
 			case <-stop:
 				return
 
-			case ev := <-s.fifo.C:
+			case ev := <-evCh:
 				if ev == nil {
 					return
 				}
+				s.inflight = ev
 				if ev.Index <= s.highWatermark.Load() {
 					// High watermark has advanced since we read this event from the FIFO.
 					// This could happen on followers if the Leader has advanced the HWM
 					// but this node hasn't even had the event generated by its underlying
 					// database yet.
 					stats.Add(numHWMIgnored, 1)
+					s.inflight = nil
 					continue
 				}
 
@@ -528,6 +545,7 @@ func (s *Service) leaderLoop() (chan struct{}, chan struct{}) {
 				decompressed, err := flate.Decompress(ev.Data)
 				if err != nil {
 					s.logger.Printf("error decompressing data for batch from FIFO: %v", err)
+					s.inflight = nil
 					continue
 				}
 
@@ -574,6 +592,7 @@ func (s *Service) leaderLoop() (chan struct{}, chan struct{}) {
 					s.highWatermark.Store(ev.Index)
 					stats.Add(numEventsTxOK, 1)
 				}
+				s.inflight = nil
 			}
 		}
 	}()
